@@ -47,7 +47,8 @@ def run(ctx):
     rep.guarded("font", R + "set_effects_and_text", lambda: rule_font(facts, rep))
     rep.guarded("colours", R, lambda: rule_colours(facts, rep))
     rep.guarded("taint", R, lambda: rule_taint(facts, rep))
-    for r, n in (("tables", 8), ("font", 4), ("colours", 11), ("taint", 4)):
+    rep.guarded("segments", R + "to_roff", lambda: rule_segments(facts, rep))
+    for r, n in (("tables", 8), ("font", 4), ("colours", 11), ("taint", 4), ("segments", 4)):
         rep.floor(r, n)
 
 
@@ -339,3 +340,43 @@ def rule_taint(facts, rep):
         pieces, args = hir.fmt_template(fm[0])
         ok = pieces[0] == "hex_" and len(pieces) == 2
     rep.check(ok, "taint", rn["path"], "colour-name-is-hex_+digits", "", loc(rn))
+
+
+def rule_segments(facts, rep):
+    """Text is preserved: every slice cansi yields becomes a segment, and every segment gets its colour requests and its text,
+    in order, unconditionally."""
+    s = facts.body("anstyle_roff", R + "styled_str::styled_stream")
+    rep.fn(s["path"])
+    st = hir.stmts_of(s["hir"])
+    tail = hir.simp(st[-1]) if st else {}
+    lets = {x["pat"]["name"]: hir.simp(x["init"]) for x in st if x.get("k") == "let" and x["pat"].get("k") == "pbind" and "init" in x}
+    chain = []
+    e = tail
+    while e.get("k") == "call" and e["args"]:
+        chain.append(hir.callee_decl(e) or hir.callee(e))
+        e = hir.simp(e["args"][0])
+        if e.get("k") == "local" and e["name"] in lets:
+            e = lets[e["name"]]
+    want = ["core::iter::traits::iterator::Iterator::map", "core::iter::traits::collect::IntoIterator::into_iter", "cansi::categorise::categorise_text_v3"]
+    got = [c for c in chain]
+    ok = len(got) == 3 and got[0] == want[0] and got[1].endswith("IntoIterator::into_iter") and got[2] == want[2]
+    rep.check(ok, "segments", s["path"], "every-slice-is-mapped",
+              f"styled_stream = categorise_text(text).into_iter().map(into): an adaptor that drops, merges or reorders slices loses text; chain {got}", loc(s))
+    clo = [n for n in hir.walk(s["hir"]) if n.get("k") == "closure"]
+    okc = len(clo) == 1
+    if okc:
+        body = hir.simp(clo[0]["body"])
+        okc = body.get("k") == "call" and hir.callee_decl(body).endswith(("Into::into", "From::from")) and hir.is_local(body["args"][0], clo[0]["params"][0].get("name"))
+    rep.check(okc, "segments", s["path"], "map-is-the-From-conversion", "the closure is `|x| x.into()`", loc(s))
+    b = facts.body("anstyle_roff", R + "to_roff")
+    rep.fn(b["path"])
+    loops = [l for l in (hir.for_loop(n) for n in hir.walk(b["hir"]) if n.get("k") == "match" and n.get("src") == "ForLoopDesugar") if l]
+    ok = len(loops) == 1 and hir.is_call(loops[0][1], R + "styled_str::styled_stream") and hir.is_local(loops[0][1]["args"][0], b["params"][0].get("name"))
+    rep.check(ok, "segments", b["path"], "loops-over-styled_stream(input)", "", loc(b))
+    if ok:
+        pat, it, body = loops[0]
+        seq = [hir.simp(x) for x in hir.stmts_of(body)]
+        names = [hir.callee(x) if x.get("k") == "call" else x.get("k") for x in seq]
+        exits = [n for n in hir.walk(body) if n.get("k") in ("break", "continue", "ret", "if", "match")]
+        rep.check(names == [R + "set_color", R + "set_effects_and_text"] and not exits, "segments", b["path"], "colour-requests-then-text-for-every-segment",
+                  f"loop body must be set_color(..); set_effects_and_text(..) with no condition or early exit; found {names}, {len(exits)} branches", loc(b))
